@@ -6,6 +6,9 @@ import PPVerif.Generated.C02
 import Mathlib.Tactic.Ring
 import Mathlib.Tactic.FieldSimp
 import Mathlib.Tactic.LinearCombination
+import Mathlib.Analysis.Real.Sqrt
+import Mathlib.Data.Real.Sign
+import Mathlib.Algebra.CharZero.Defs
 
 namespace PPVerif.C02
 open PPVerif.PF PPVerif.Elem
@@ -57,5 +60,48 @@ theorem C02_asym_guards :
     PPVerif.Generated.C02.seriesAsymGuard = ["BR_R_ASYM", "BR_X_ASYM"] ∧
     PPVerif.Generated.C02.shuntAsymGuard = ["BR_G_ASYM", "BR_B_ASYM"] ∧
     PPVerif.Generated.C02.trafo3wPowerLoadingRatings = ["sn_hv_mva", "sn_mv_mva", "sn_lv_mva"] := by decide
+
+/-! ## two-winding transformer: short-circuit impedance from vk / vkr (generated from `_calc_r_x_from_dataframe`) -/
+section trafo
+open PPVerif.Generated.C02
+
+/-- the short-circuit impedance on the net's per-unit base: vk on the transformer's own base (sn_trafo, vn_trafo_lv)
+    converted to (sn_net, vn_bus) -/
+theorem C02_trafo_zsc_base_change {K : Type} [Field K] (vk snt vt vb sn : K) (hs : snt ≠ 0) (hb : vb ≠ 0) (hn : sn ≠ 0) :
+    trafoZsc vk snt vt vb sn * (vb ^ 2 / sn) = (vk / 100) * (vt ^ 2 / snt) := by
+  unfold trafoZsc; field_simp
+
+theorem rx_magnitude (z r p : ℝ) (hp : p ≠ 0) (hle : r ^ 2 ≤ z ^ 2) :
+    (r / p) ^ 2 + (Real.sign z * Real.sqrt (z ^ 2 - r ^ 2) / p) ^ 2 = (z / p) ^ 2 := by
+  have hsq : Real.sqrt (z ^ 2 - r ^ 2) ^ 2 = z ^ 2 - r ^ 2 := Real.sq_sqrt (by linarith)
+  have hx : (Real.sign z * Real.sqrt (z ^ 2 - r ^ 2)) ^ 2 = z ^ 2 - r ^ 2 := by
+    rcases lt_trichotomy z 0 with hz | hz | hz
+    · rw [Real.sign_of_neg hz, mul_pow, hsq]; ring
+    · have hr : r ^ 2 ≤ 0 := by rw [hz] at hle; simpa using hle
+      have hr0 : r ^ 2 = 0 := le_antisymm hr (sq_nonneg r)
+      rw [hz, Real.sign_zero, zero_mul, hr0]; ring
+    · rw [Real.sign_of_pos hz, mul_pow, hsq]; ring
+  rw [div_pow, div_pow, div_pow, hx]
+  field_simp
+  ring
+
+/-- |z| = vk: the returned r and x (with parallel transformers) satisfy r² + x² = (z_sc / parallel)², the sign of x following
+    the sign of vk, whenever vkr does not exceed vk in magnitude -/
+theorem C02_trafo_r_x_magnitude (vk vkr snt vt vb sn p : ℝ) (hp : p ≠ 0)
+    (hle : (trafoZsc vkr snt vt vb sn) ^ 2 ≤ (trafoZsc vk snt vt vb sn) ^ 2) :
+    (trafoZsc vkr snt vt vb sn / p) ^ 2 +
+      (Real.sign (trafoZsc vk snt vt vb sn) * Real.sqrt ((trafoZsc vk snt vt vb sn) ^ 2 - (trafoZsc vkr snt vt vb sn) ^ 2) / p) ^ 2 =
+      (trafoZsc vk snt vt vb sn / p) ^ 2 :=
+  rx_magnitude _ _ p hp hle
+
+/-- for positive vk the reactance is positive, for negative vk negative (np.sign) -/
+theorem C02_trafo_x_sign (z r : ℝ) (hlt : r ^ 2 < z ^ 2) (hz : 0 < z) : 0 < Real.sign z * Real.sqrt (z ^ 2 - r ^ 2) := by
+  rw [Real.sign_of_pos hz, one_mul]; exact Real.sqrt_pos.2 (by linarith)
+
+/-- the R/X split follows vkr / vk -/
+theorem C02_trafo_r_over_z {K : Type} [Field K] [CharZero K] (vk vkr snt vt vb sn : K) (hs : snt ≠ 0) (hb : vb ≠ 0) (hn : sn ≠ 0) (ht : vt ≠ 0) (hk : vk ≠ 0) :
+    trafoZsc vkr snt vt vb sn / trafoZsc vk snt vt vb sn = vkr / vk := by
+  unfold trafoZsc; field_simp
+end trafo
 
 end PPVerif.C02
